@@ -147,8 +147,22 @@ def writeJ (items : List MItem) : Json :=
     ("cells", Json.arr (cells.map (fun c => Json.mkObj [("number", toJson c.1), ("params", Json.arr (c.2.map pJ).toArray)])).toArray),
     ("data", Json.arr (inb.map cJ).toArray), ("outside", Json.arr (after.map cJ).toArray)]
 
+/-- `"params"`: per cell of the input the parsed parameters `[[key, prefix], …]` (and one more, empty, list: a cell
+    made by `Cell()`); answer: per list the class prefixes with a node in the parameters tree after
+    `_parse_keyword_modifiers`, and whether every key that contains `imp` is an IMP parameter -/
+def slotsJ (j : Json) : Except String Json := do
+  let cells ← j.getArr?
+  let out ← cells.toList.mapM (fun cj => do
+    let ps ← (← cj.getArr?).toList.mapM (fun pj => do
+      return (⟨(← (← arg pj 0).getStr?).toList, (← (← arg pj 1).getStr?).toList⟩ : Param))
+    return Json.mkObj [("slots", Json.arr ((slots ps).map kJ).toArray), ("imp_keys_are_imp", toJson (impKeysAreImp ps))])
+  return Json.arr out.toArray
+
 def runCase (j : Json) : Except String Json := do
   let st ← parseState (← j.getObjVal? "state")
+  let slotsOut ← match j.getObjVal? "params" with
+    | .ok pj => slotsJ pj
+    | .error _ => pure Json.null
   let ops ← (← j.getObjVal? "ops").getArr?
   let mut s := st
   let mut out : Array Json := #[]
@@ -167,7 +181,7 @@ def runCase (j : Json) : Except String Json := do
         s := r.1
         if r.2.isSome then err := r.2
       out := out.push (Json.mkObj [("state", stateJ s), ("err", match err with | none => Json.null | some e => errJ e)])
-  return Json.mkObj [("steps", Json.arr out)]
+  return Json.mkObj [("steps", Json.arr out), ("slots", slotsOut)]
 
 partial def loop (h : IO.FS.Stream) : IO Unit := do
   let line ← h.getLine
